@@ -192,6 +192,40 @@ def taskStep (s : TaskSt) (line : String) : TaskSt × String :=
     | _, _ => (s, "bad-op")
   | _ => (s, "bad-op")
 
+/-! ### C36: SystemTask (message → removal reason → spawner) -/
+
+def spKind? (w : String) : Option SpKind :=
+  if w == "s" then some .std
+  else if w.startsWith "p" then ((w.drop 1).toString.toNat?).map .pool
+  else none
+
+def sysMsg? : String → Option SysMsg
+  | "D" => some .mustDemobilize
+  | "N" => some .networkIssue
+  | "U" => some .unreachable
+  | _ => none
+
+def countsStr (cs : List (Nat × Nat)) : String :=
+  commaList ((cs.filter (·.2 > 0)).map fun x => s!"{x.1}:{x.2}")
+
+def sysStep (s : Sys) (line : String) : Sys × String :=
+  match words line with
+  | "cfg" :: ws =>
+    match (kv? ws "spawners").bind (fun x => (splitComma x).mapM spKind?) with
+    | some kinds =>
+      let (s', counts) := Sys.start kinds
+      (s', s!"spawns={countsStr ((List.range counts.length).zip counts)}")
+    | none => (s, "bad-op")
+  | ["noop"] => (s, "ok")
+  | "msg" :: ws =>
+    match (kv? ws "kind").bind sysMsg?, kvNat? ws "src" with
+    | some m, some src =>
+      match s.msg m src with
+      | some (s', owner, r, n) => (s', s!"to={owner} reason={reasonStr r} spawns={countsStr [(owner, n)]}")
+      | none => (s, "no-such-source")
+    | _, _ => (s, "bad-op")
+  | _ => (s, "bad-op")
+
 end Drv
 
 def main (args : List String) : IO Unit := do
@@ -201,4 +235,5 @@ def main (args : List String) : IO Unit := do
   | ["pool"] => runLoop Drv.poolInit Drv.poolStep stdin stdout
   | ["std"] => runLoop Spawner.Std.init Drv.stdStep stdin stdout
   | ["task"] => runLoop Drv.taskInit Drv.taskStep stdin stdout
-  | _ => throw (IO.userError "usage: drv-spawn pool|std|task")
+  | ["sys"] => runLoop (Spawner.Sys.start []).1 Drv.sysStep stdin stdout
+  | _ => throw (IO.userError "usage: drv-spawn pool|std|task|sys")
